@@ -16,7 +16,6 @@ package operator
 import (
 	"encoding/hex"
 	"fmt"
-	"math/rand"
 
 	"github.com/pingcap/errors"
 	"github.com/pingcap/kvproto/pkg/metapb"
@@ -186,27 +185,16 @@ func isRegionMatch(a, b *core.RegionInfo) bool {
 
 // CreateScatterRegionOperator creates an operator that scatters the specified region.
 func CreateScatterRegionOperator(desc string, cluster opt.Cluster, origin *core.RegionInfo, targetPeers map[uint64]*metapb.Peer, targetLeader uint64) (*Operator, error) {
-	// randomly pick a leader.
-	var ids []uint64
-	for id, peer := range targetPeers {
-		if !core.IsLearner(peer) {
-			ids = append(ids, id)
-		}
-	}
-	var leader uint64
-	if len(ids) > 0 {
-		leader = ids[rand.Intn(len(ids))]
-	}
-	if targetLeader != 0 {
-		leader = targetLeader
-	}
-	return NewBuilder(desc, cluster, origin).
+	b := NewBuilder(desc, cluster, origin).
 		SetPeers(targetPeers).
-		SetLeader(leader).
-		EnableLightWeight().
+		EnableLightWeight()
+	if targetLeader != 0 {
+		// The caller has checked that the store accepts the leader.
 		// EnableForceTargetLeader in order to ignore the leader schedule limit
-		EnableForceTargetLeader().
-		Build(0)
+		b.SetLeader(targetLeader).EnableForceTargetLeader()
+	}
+	// Otherwise the builder picks a leader among the stores that accept one, or fails.
+	return b.Build(0)
 }
 
 // CreateLeaveJointStateOperator creates an operator that let region leave joint state.
